@@ -113,7 +113,7 @@ def p_propertyvalue(pv):
     return comps, seps
 
 
-def p_items(style, comments=True):
+def p_items(style, comments=True, with_valid=False):
     out = []
     for it in style.seq:
         v = it.value
@@ -122,7 +122,10 @@ def p_items(style, comments=True):
                 out.append(('comment', v.cssText))
         elif type(v).__name__ == 'Property':
             comps, seps = p_propertyvalue(v.propertyValue)
-            out.append(('decl', v.name, comps, seps, v.priority == 'important'))
+            if with_valid:
+                out.append(('decl', v.name, comps, seps, v.priority == 'important', bool(v.valid)))
+            else:
+                out.append(('decl', v.name, comps, seps, v.priority == 'important'))
         else:
             out.append(('other-item', type(v).__name__))
     return out
@@ -268,7 +271,7 @@ def p_media(ml):
     return [p_query(it.value) for it in ml]
 
 
-def p_rules(rules, comments=True):
+def p_rules(rules, comments=True, with_valid=False):
     out = []
     for r in rules:
         cls = type(r).__name__
@@ -282,20 +285,20 @@ def p_rules(rules, comments=True):
         elif cls == 'CSSNamespaceRule':
             out.append(('namespace', plain(r.prefix or ''), r.namespaceURI))
         elif cls == 'CSSStyleRule':
-            out.append(('style', [p_selector(s) for s in r.selectorList], p_items(r.style, comments)))
+            out.append(('style', [p_selector(s) for s in r.selectorList], p_items(r.style, comments, with_valid)))
         elif cls == 'CSSMediaRule':
-            out.append(('media', p_media(r.media), p_rules(r.cssRules, comments)))
+            out.append(('media', p_media(r.media), p_rules(r.cssRules, comments, with_valid)))
         elif cls == 'CSSPageRule':
-            boxes = [(m.margin.lower(), p_items(m.style, comments)) for m in r.cssRules if type(m).__name__ == 'MarginRule']
-            out.append(('page', normalize_page(r.selectorText), p_items(r.style, comments), boxes))
+            boxes = [(m.margin.lower(), p_items(m.style, comments, with_valid)) for m in r.cssRules if type(m).__name__ == 'MarginRule']
+            out.append(('page', normalize_page(r.selectorText), p_items(r.style, comments, with_valid), boxes))
         elif cls == 'CSSFontFaceRule':
-            out.append(('fontface', p_items(r.style, comments)))
+            out.append(('fontface', p_items(r.style, comments, with_valid)))
         elif cls == 'CSSUnknownRule':
             out.append(('unknown', (r.atkeyword or '').lower()))
         elif cls == 'CSSVariablesRule':
             out.append(('variables', sorted((k, r.variables[k]) for k in r.variables.keys())))
         elif cls == 'MarginRule':
-            out.append(('margin', r.margin.lower(), p_items(r.style, comments)))
+            out.append(('margin', r.margin.lower(), p_items(r.style, comments, with_valid)))
         else:
             out.append(('other-rule', cls))
     return out
@@ -311,8 +314,8 @@ def normalize_page(sel):
     return plain(sel)
 
 
-def project(sheet, comments=True):
-    return p_rules(sheet.cssRules, comments)
+def project(sheet, comments=True, with_valid=False):
+    return p_rules(sheet.cssRules, comments, with_valid)
 
 
 def diff(a, b, path='root'):
